@@ -416,6 +416,10 @@ class Interp:
             return merge(fn.cond, self.call(fn.a, args, kwargs), self.call(fn.b, args, kwargs))
         if isinstance(fn, self.lib.NTupleClass):
             return fn.make(list(args), dict(kwargs))
+        if isinstance(fn, SymObj) and fn.cls is not None:
+            m = fn.cls.lookup("__call__")
+            if m is not _MISSING:
+                return self.call(BoundMethod(m, fn), args, kwargs, where)
         if callable(fn):
             return fn(*args, **kwargs)
         raise AnalysisError(f"call of non-callable {fn!r}")
